@@ -521,6 +521,15 @@ func (s *State) atLoopHead(l *Loop) bool {
 				// proved); whatever depended on it now fails as a named obligation instead of the whole check
 				// becoming undecided
 				c.noteOnce(fmt.Sprintf("loop %d invariant clause dropped (%v): %s", l.Ordinal, err, cl.Src))
+				// ... and the dropped clause itself is a failed obligation: a statement of the contract that can no
+				// longer be bound to the code must not disappear silently (a renamed or removed local needs the
+				// contract to be rewritten)
+				name := fmt.Sprintf("%s/inv-bind#L%d:%d", c.Key, l.Ordinal, cl.Line)
+				if !c.warned[name] {
+					c.warned[name] = true
+					c.Obls = append(c.Obls, &Obligation{Name: name, Kind: "inv-bind", Func: c.Key, Desc: "the loop invariant clause can be bound to the code (" + err.Error() + "): " + cl.Src,
+						Pos: fmt.Sprintf("%s:%d", cl.File, cl.Line), Path: nil, Goal: "false"})
+				}
 				return "true"
 			}
 			panic(evalErr(fmt.Sprintf("%s:%d: loop %d invariant: %v", cl.File, cl.Line, l.Ordinal, err)))
